@@ -20,9 +20,21 @@ Open Scope Z_scope.
 
 (* OpenIDConnectClientConfig: client_id, client_secret, allow_client_chose_audiences (may this client
    name, in the authorization request's "audience" parameter, an extra audience for the ACCESS token) *)
-Record client := { cl_id : bs; cl_secret : bs; cl_allow_aud : bool }.
+(* cl_other: EVERY other scalar option of the client's configuration entry (the bool and string fields
+   of OpenIDConnectClientConfig besides the three above, as (field name, value) pairs - the harness finds
+   them by reflection over the struct of the current tree).  Nothing below reads it: who is the client and
+   how it proves that is decided by cl_id and cl_secret alone, for every value of every other option
+   (Props/C12.v c12_release_ignores_options, c12_secret_client_needs_secret). *)
+Record client := { cl_id : bs; cl_secret : bs; cl_allow_aud : bool; cl_other : list (bs * bs) }.
+
+Definition with_other (c : client) (o : list (bs * bs)) : client :=
+  {| cl_id := cl_id c; cl_secret := cl_secret c; cl_allow_aud := cl_allow_aud c; cl_other := o |}.
 
 Record idp := { srv : server; clients : list client }.
+
+(* the same daemon with the other options of every client replaced (f: client -> its new options) *)
+Definition reopt (f : client -> list (bs * bs)) (i : idp) : idp :=
+  {| srv := srv i; clients := map (fun c => with_other c (f c)) (clients i) |}.
 
 (* idpOpenIDCGetClientConfig: first match *)
 Fixpoint find_client (id : bs) (l : list client) : option client :=
@@ -177,7 +189,16 @@ Definition with_audience (r : areq) (aud : bs) (ok : bool) : areq :=
 
 (* ---------------------------------------------------------------- token endpoint *)
 
+(* how the request reached the daemon - both chosen by the caller: the Host header (r.Host, [] when
+   empty) and the TLS handshake's server name (None: r.TLS = nil; Some n: r.TLS.ServerName = n, [] when the
+   caller sent no SNI).  Go's TLS server completes the handshake with its default certificate for any
+   name.  Nothing below reads it: the issuer written into tokens, expected by userinfo and published by
+   the discovery document is s_issuer of the CONFIGURATION (Props/C12.v c12_issuer_ignores_request). *)
+Record conn := { cn_host : bs; cn_sni : option bs }.
+Definition conn_none : conn := {| cn_host := []; cn_sni := None |}.
+
 Record treq := {
+  tr_conn : conn;
   tr_post : bool;
   tr_grant : bs;
   tr_redirect : bs;              (* r.Form.Get("redirect_uri"): the FIRST value sent, [] when absent *)
@@ -388,7 +409,7 @@ Definition consumes (c : consumer) : kind :=
   end.
 
 Definition with_code (r : treq) (t : token) : treq :=
-  {| tr_post := tr_post r; tr_grant := tr_grant r; tr_redirect := tr_redirect r; tr_code := t;
+  {| tr_conn := tr_conn r; tr_post := tr_post r; tr_grant := tr_grant r; tr_redirect := tr_redirect r; tr_code := t;
      tr_verifier := tr_verifier r; tr_vhash := tr_vhash r; tr_basic := tr_basic r;
      tr_form_client := tr_form_client r; tr_form_secret := tr_form_secret r |}.
 
@@ -423,12 +444,17 @@ Definition authenticated_client (r : treq) : option bs :=
 
 (* the same request with other body credentials / another header *)
 Definition with_form (r : treq) (fc fs : bs) : treq :=
-  {| tr_post := tr_post r; tr_grant := tr_grant r; tr_redirect := tr_redirect r; tr_code := tr_code r;
+  {| tr_conn := tr_conn r; tr_post := tr_post r; tr_grant := tr_grant r; tr_redirect := tr_redirect r; tr_code := tr_code r;
      tr_verifier := tr_verifier r; tr_vhash := tr_vhash r; tr_basic := tr_basic r;
      tr_form_client := fc; tr_form_secret := fs |}.
 Definition with_basic (r : treq) (h : option (bs * bs)) : treq :=
-  {| tr_post := tr_post r; tr_grant := tr_grant r; tr_redirect := tr_redirect r; tr_code := tr_code r;
+  {| tr_conn := tr_conn r; tr_post := tr_post r; tr_grant := tr_grant r; tr_redirect := tr_redirect r; tr_code := tr_code r;
      tr_verifier := tr_verifier r; tr_vhash := tr_vhash r; tr_basic := h;
+     tr_form_client := tr_form_client r; tr_form_secret := tr_form_secret r |}.
+
+Definition with_conn (r : treq) (cn : conn) : treq :=
+  {| tr_conn := cn; tr_post := tr_post r; tr_grant := tr_grant r; tr_redirect := tr_redirect r; tr_code := tr_code r;
+     tr_verifier := tr_verifier r; tr_vhash := tr_vhash r; tr_basic := tr_basic r;
      tr_form_client := tr_form_client r; tr_form_secret := tr_form_secret r |}.
 
 Definition ch_is_release (r : tresult) : bool := match r with Release _ _ => true | Refuse _ => false end.
@@ -456,6 +482,55 @@ Definition token_endpoint_body_subject (i : idp) (now : Z) (r : treq) : tresult 
           let valid := if negb valid && nonempty pass then bs_eqb pass (cl_secret c) else valid in
           if negb valid then Refuse 401
           else if negb (bs_eqb (if nonempty (tr_form_client r) then tr_form_client r else id) (c_sub k)) then Refuse 401
+          else if c_exp k <? unix now then Refuse 401
+          else if negb (bs_eqb (c_redirect k) (tr_redirect r)) then Refuse 401
+          else if negb (bs_eqb (c_type k) k_code) then Refuse 401
+          else Release (p_id (srv i) now id k) (p_access (srv i) now k)
+      end
+    end
+  end.
+
+(* ---------------------------------------------------------------- the request's Host / SNI at the other endpoints *)
+
+(* idpOpenIDCUserinfoHandler reached over connection [cn]: the issuer and the userinfo URL the token is
+   checked against are those of the configuration *)
+Definition userinfo_endpoint (i : idp) (now : Z) (cn : conn) (t : token) : option bs := c_userinfo (srv i) now t.
+
+(* idpOpenIDCDiscoveryHandler reached over connection [cn]: (issuer, userinfo_endpoint) of the document *)
+Definition discovery (i : idp) (cn : conn) : bs * bs := (s_issuer (srv i), s_userinfo (srv i)).
+
+(* NOT the code: an issuer that follows the name the caller used when Host and SNI agree on a name other
+   than the configured one (refuted in Props/C12.v: the caller then chooses the ID token's iss) *)
+Definition issuer_for (st : server) (own_name : bs) (cn : conn) : bs :=
+  match cn_sni cn with
+  | Some n => if nonempty n && nonempty (cn_host cn) && bs_eqb (cn_host cn) n && negb (bs_eqb n own_name)
+              then b "https://" ++ cn_host cn else s_issuer st
+  | None => s_issuer st
+  end.
+
+(* NOT the code: a client option (any member of cl_other, here: any at all) that lets a client WITH a
+   secret use PKCE, the rest of the handler unchanged - the verifier then authenticates such a client on
+   its own (refuted in Props/C12.v) *)
+Definition token_endpoint_pkce_option (i : idp) (now : Z) (r : treq) : tresult :=
+  if negb (tr_post r) then Refuse 400
+  else if negb (bs_eqb (tr_grant r) gt_authcode) then Refuse 400
+  else if negb (nonempty (tr_redirect r)) then Refuse 400
+  else if negb (verify (srv i) (tr_code r)) then Refuse 400
+  else match dec_code (t_claims (tr_code r)) with
+  | None => Refuse 400
+  | Some k =>
+    match caller r with
+    | inr s => Refuse s
+    | inl (id, pass) =>
+      match find_client id (clients i) with
+      | None => Refuse 400
+      | Some c =>
+        if nonempty (tr_verifier r) && nonempty (cl_secret c) && negb (match cl_other c with [] => false | _ => true end) then Refuse 401
+        else
+          let valid := nonempty (tr_verifier r) && pkce_ok (srv i) k (tr_verifier r) (tr_vhash r) in
+          let valid := if negb valid && nonempty pass then bs_eqb pass (cl_secret c) else valid in
+          if negb valid then Refuse 401
+          else if negb (bs_eqb id (c_sub k)) then Refuse 401
           else if c_exp k <? unix now then Refuse 401
           else if negb (bs_eqb (c_redirect k) (tr_redirect r)) then Refuse 401
           else if negb (bs_eqb (c_type k) k_code) then Refuse 401
